@@ -233,6 +233,9 @@ func (k *classify) walk(t *T, v *V) {
 		}
 	case "reg":
 		rt := regByShort[t.Name].Type
+		if v.K == "marsh" {
+			return
+		}
 		switch rt.Kind() {
 		case reflect.Struct:
 			for i, e := range v.L {
@@ -273,7 +276,7 @@ func optNone(s string, ok bool) string {
 
 func main() {
 	if len(os.Args) < 2 {
-		fmt.Fprintln(os.Stderr, "usage: edf <roundtrip> [flags]")
+		fmt.Fprintln(os.Stderr, "usage: edf <roundtrip|negotiated> [flags]")
 		os.Exit(2)
 	}
 	fs := flag.NewFlagSet(os.Args[1], flag.ExitOnError)
@@ -283,11 +286,15 @@ func main() {
 	known := fs.String("known", "", "comma separated tags of known findings whose input classes are generated too")
 	corpus := fs.String("corpus", "", "directory of replay files run before the generated cases")
 	fs.Parse(os.Args[2:])
-	if os.Args[1] != "roundtrip" {
+	if os.Args[1] != "roundtrip" && os.Args[1] != "negotiated" {
 		fmt.Fprintln(os.Stderr, "unknown subcommand")
 		os.Exit(2)
 	}
 	registerAll()
+	if os.Args[1] == "negotiated" {
+		mainNegotiated(*n, *outp, *replay)
+		return
+	}
 
 	g := &genCfg{r: util.Rng(11)}
 	for _, t := range strings.Split(*known, ",") {
